@@ -171,6 +171,8 @@ func checkC05(r *Run) {
 	c.ruleDeferredCopy(r7)
 	r9 := r.Rule("R-C05-9", "packet identifiers put on the wire are non-zero (MQTT-2.3.1-1): newID returns its draw only on the `id != 0` edge")
 	c.ruleNewIDNonZero(r9)
+	r10 := r.Rule("R-C05-10", "the DUP bit put on the wire is the one decided for this transmission: Message.Dup is assigned before the PUBLISH is packed, on every path")
+	c.ruleDupDecidedBeforePack(r10)
 	// ---- R-C05-8
 	c.ruleInboundFields(r8)
 	c.ruleGuardTightness(r8, []string{"pktPublish"})
@@ -2143,4 +2145,55 @@ func (c *Ctx) constTable(g *ssa.Global) (map[int64]int64, int, bool) {
 		t = map[int64]int64{}
 	}
 	return t, int(arr.Len()), true
+}
+
+// ruleDupDecidedBeforePack: in the publish implementation every Pack of the PUBLISH is dominated by the assignment of
+// Message.Dup (what a retried message object carries from its previous transmission must not reach the wire).
+func (c *Ctx) ruleDupDecidedBeforePack(rr *RuleRep) {
+	pub := c.Func("publishImpl")
+	if pub == nil {
+		if m := c.Method("BaseClient", "Publish"); m != nil {
+			for _, g := range c.calleesOf(m, false) {
+				if g.Name() != "ValidateMessage" {
+					pub = g
+				}
+			}
+		}
+	}
+	packP := c.Method("pktPublish", "Pack")
+	if pub == nil || packP == nil {
+		rr.Lost("publishImpl/pktPublish.Pack", "publish implementation or PUBLISH packer not found")
+		return
+	}
+	var stores []ssa.Instruction
+	eachInstr(pub, func(in ssa.Instruction) {
+		if st, ok := in.(*ssa.Store); ok {
+			if _, isDup := isFieldAddr(st.Addr, "Message", "Dup"); isDup {
+				stores = append(stores, in)
+			}
+		}
+	})
+	n := 0
+	eachInstr(pub, func(x ssa.Instruction) {
+		if !c.isCallTo(x, packP) {
+			return
+		}
+		n++
+		key := FuncName(pub) + "/dup-before-pack"
+		if len(stores) > 0 && Dominated(pub, x, func(y ssa.Instruction) bool {
+			for _, st := range stores {
+				if y == st {
+					return true
+				}
+			}
+			return false
+		}, PathQ{}) {
+			rr.OK(key, x.Pos(), "Message.Dup is assigned on every path before the PUBLISH is packed")
+		} else {
+			rr.Bad(key, x.Pos(), "the PUBLISH is packed on a path on which Message.Dup has not been assigned yet: the DUP bit on the wire is whatever the message object carried before (a retransmission without DUP, or a first transmission with it)")
+		}
+	})
+	if n == 0 {
+		rr.Lost(FuncName(pub)+"/dup-before-pack", "no PUBLISH is packed in the publish implementation")
+	}
 }
